@@ -301,12 +301,12 @@ Proof.
 Qed.
 
 Definition action_titled (a : action) : Prop :=
-  match a with AAdd p new => subs new = [] /\ title new = last p [] | _ => True end.
+  match a with AAdd p new => subs new = [] /\ title new = last p [] | AUpd _ _ _ ttl => ttl = None | _ => True end.
 
-Lemma op_actions_titled o m : Forall action_titled (op_actions o m).
+Lemma op_actions_titled o m : no_retitle [o] = true -> Forall action_titled (op_actions o m).
 Proof.
-  destruct o as [fold kvs|desc alt fold kvs|desc fold kvs|sect desc kvs|sect desc params|key|ks|key|names|ks b|ks b];
-    cbn [op_actions].
+  destruct o as [fold kvs|desc alt fold kvs|desc fold kvs|sect desc kvs|sect desc params|key|ks|key|names|ks b|ks b|ks t];
+    cbn [op_actions no_retitle forallb andb]; intros Hnr.
   - induction kvs as [|kv kvs IH]; cbn [map]; constructor; [split; reflexivity | exact IH].
   - induction kvs as [|[key path] kvs IH]; cbn [plot_actions]; [constructor|].
     destruct (is_empty path); constructor; [split; reflexivity | exact IH].
@@ -318,29 +318,38 @@ Proof.
   - constructor.
   - destruct (_ || _); constructor; [exact I | constructor].
   - destruct (is_empty _); constructor; [exact I | constructor].
-  - destruct (chain_ok ks); constructor; [exact I | constructor].
-  - destruct (chain_ok ks); constructor; [exact I | constructor].
+  - destruct (chain_ok ks); constructor; [reflexivity | constructor].
+  - destruct (chain_ok ks); constructor; [reflexivity | constructor].
+  - discriminate Hnr.
 Qed.
 
-Lemma upd_fun_title vis fold x : title (upd_fun vis fold x) = title x.
+Lemma upd_fun_title vis fold x : title (upd_fun vis fold None x) = title x.
 Proof. destruct x, vis, fold; reflexivity. Qed.
 
 (* C14_placement, global form: in every reachable card each heading is the last path part
    under which its section is stored (no section is titled with a whole path any more: D16) *)
-Theorem reachable_titled ops : titled (data (run_card ops empty_card)).
+Theorem reachable_titled ops : no_retitle ops = true -> titled (data (run_card ops empty_card)).
 Proof.
-  rewrite run_history. cbn [metrics empty_card data].
+  intros Hnr. rewrite run_history. cbn [metrics empty_card data].
   assert (H : forall acts d, Forall action_titled acts -> titled d -> titled (apply_actions acts d)).
   { induction acts as [|a acts IH]; intros d Ha Hd; [exact Hd|].
     inversion Ha as [|? ? Ha1 Ha2]; subst. cbn [apply_actions fold_left]. apply IH; [exact Ha2|].
-    destruct a as [p new|p|p vis fold]; cbn [apply_action action_titled] in *.
+    destruct a as [p new|p|p vis fold ttl]; cbn [apply_action action_titled] in *.
     - destruct Ha1. apply titled_add_path; assumption.
     - destruct (delete_path p d) eqn:E; [eapply titled_delete_path; eauto | exact Hd].
-    - apply titled_update_path; [|exact Hd]. intros x. split; [apply upd_fun_subs | apply upd_fun_title]. }
+    - subst ttl. apply titled_update_path; [|exact Hd]. intros x. split; [apply upd_fun_subs | apply upd_fun_title]. }
   apply H; [|constructor].
   generalize (@nil (pstr * pstr)). induction ops as [|o ops IH]; intros m; cbn [history]; [constructor|].
-  apply Forall_app. split; [apply op_actions_titled | apply IH].
+  cbn [no_retitle forallb] in Hnr. apply andb_true_iff in Hnr as [Ho Hops].
+  apply Forall_app. split; [apply op_actions_titled; cbn [no_retitle forallb]; rewrite Ho; reflexivity | apply IH; exact Hops].
 Qed.
+
+(* and a direct assignment to .title is exactly what breaks it: the heading changes, the key does not *)
+Example retitle_not_titled :
+  let ops := [OAdd false [(of_ascii "A", of_ascii "a")]; OSetTitle [of_ascii "A"] (of_ascii "B")] in
+  lookup [of_ascii "A"] (data (run_card ops empty_card)) = Some (Sec (of_ascii "B") (of_ascii "a") true false KText [])
+  /\ no_retitle ops = false.
+Proof. vm_compute. split; reflexivity. Qed.
 
 (* ------------------------------------------------------------------ C14_batch *)
 Theorem batch_texts fold a b d : add_texts fold (a ++ b) d = add_texts fold b (add_texts fold a d).
